@@ -53,6 +53,12 @@ def imm_probes(m, kind, tier, rng):
         for d in (-2, -1, 0, 1, 2):
             s.add((1 << k) + d)
             s.add(-(1 << k) + d)
+    # values far outside that are congruent to legal ones modulo a word or field size (a wrap somewhere turns them into legal ones)
+    for v in (lo, hi, 0, 1, -1, scale, 7 * scale if lo <= 7 * scale <= hi else lo, (lo + hi) // 2 // scale * scale):
+        for w in (12, 13, 16, 20, 21, 31, 32, 33, 64):
+            s.add(v + (1 << w))
+            s.add(v - (1 << w))
+            s.add(v + 3 * (1 << w))
     if kind == 'upper':
         s |= set(range(0x7ffff - 64, 0x80000 + 64))
     if kind == 'cupper':
@@ -209,6 +215,8 @@ def judge_program(asm, acc, m, tup, kw, alias=False):
                 ops[k] = 'NM%d' % k
             elif m not in PCREL and isinstance(a, int) and (isinstance(kind, tuple) or kind in ('upper', 'cupper', 'nzshamt', 'shamt', 'uimm5')):
                 # an absolute immediate given by name, any value (also unrepresentable ones)
+                if (a + k) % 3 == 0:
+                    pre += 'NV%d = %d\nNV%d = %d\n' % (k, a, k, a + 1)      # defined, redefined, and set back: the last definition counts
                 pre += 'NV%d = %d\n' % (k, a)
                 ops[k] = 'NV%d' % k
         # ... and not at address 0: a name in a non pc-relative position means its value wherever the instruction sits
@@ -290,8 +298,10 @@ def prog_shard(asm, acc, sh, deadline):
                     v = rng.randrange(lo, hi + 1)
                 elif c < 0.8:
                     v = rng.randrange(lo, hi + 1) // scale * scale
-                else:
+                elif c < 0.9:
                     v = rng.choice([1, -1]) * ((1 << rng.randrange(0, 40)) + rng.randrange(-2, 3))
+                else:
+                    v = rng.randrange(lo, hi + 1) // scale * scale + rng.choice([1, -1, 3]) * (1 << rng.choice([32, 32, 33, 64, 16, 20]))
                 tup.append(v)
         kw = None
         if m in operands.ATOMICS:
